@@ -55,6 +55,10 @@ func (c *RawBtcConfig) Validate() error {
 		return fmt.Errorf("blockConfirmations has to be >=1")
 	}
 
+	if c.BlockInterval < 1 {
+		return fmt.Errorf("blockInterval has to be >=1")
+	}
+
 	if c.Username == "" {
 		return fmt.Errorf("required field chain.Username empty for chain %v", *c.Id)
 	}
